@@ -1,17 +1,18 @@
 #!/bin/bash
-# round 3: region-based mutations in /tmp/wt3/R<n>/MUT/<k>; the property is named by the first
+# rounds 3 and 4 (WT_ROOT=/tmp/wt4 RTAG=r4 tools/seedr3.sh A1 ...): mutations in $WT_ROOT/<R>/MUT/<k>; the property is named by the first
 # line of the agent's README ("PROPERTY: Cxx"), secondary ones ("also Cyy") are run as cross-checks.
 cd /verif
 export VERIF_SNAP=/tmp/vsnap
 rm -rf $VERIF_SNAP; git worktree prune; git worktree add -q --detach $VERIF_SNAP HEAD || exit 2
 mkdir -p $VERIF_SNAP/.work; cp -r /verif/.work/fam $VERIF_SNAP/.work/ 2>/dev/null
-export WT_ROOT=/tmp/wt3
+export WT_ROOT=${WT_ROOT:-/tmp/wt3}
+export RTAG=${RTAG:-r3}
 region() { R=$1
   for K in 1 2 3 4; do
     M=$WT_ROOT/$R/MUT/$K; [ -f $M/README.md ] || continue
     P=$(grep -m1 -oP 'PROPERTY:?\s*\KC[0-9]+' $M/README.md)
     ALSO=$(head -5 $M/README.md | grep -oP 'C[0-9]{2}' | sort -u | grep -v "^$P$" | tr '\n' ' ')
-    WT_NAME=$R SEED_TAG="r3-$R." $VERIF_SNAP/tools/seedtest.sh $P $K $P $ALSO $EXTRA > /tmp/seedr3.$R.$K.log 2>&1
+    WT_NAME=$R SEED_TAG="$RTAG-$R." $VERIF_SNAP/tools/seedtest.sh $P $K $P $ALSO $EXTRA > /tmp/seedr3.$R.$K.log 2>&1
     echo "$R.$K $P [$ALSO] $(tail -2 /tmp/seedr3.$R.$K.log | tr '\n' ' ')"
   done; }
 export -f region
